@@ -128,7 +128,10 @@ class guard:
         self.active = bool(os.environ.get("NUMBA_DISABLE_JIT"))
         if self.active:
             self.old = signal.signal(signal.SIGALRM, self._fire)
-            signal.alarm(self.seconds)
+            # guards nest (a walk under a 30 s guard calls single filtering calls under 5 s guards): remember what was left of the
+            # enclosing alarm, so that leaving the inner guard re-arms it instead of cancelling it
+            self.prev_left = signal.alarm(self.seconds)
+            self.t0 = time.time()
         return self
 
     def __exit__(self, *a):
@@ -137,6 +140,8 @@ class guard:
         if self.active:
             signal.alarm(0)
             signal.signal(signal.SIGALRM, self.old)
+            if self.prev_left:
+                signal.alarm(max(1, int(self.prev_left - (time.time() - self.t0))))
         return False
 
 
